@@ -59,6 +59,7 @@ def specHandler : Handler → Req → Trace → Res
     match specRoutes rs r t with
     | .cont r' t' => .cont r' t'
     | .stop (.done t' s) => .stop (.done t' s)
+    | .stop (.reached r' t') => .cont r' t'     -- never produced by the rules (`specRoutes_no_marker`)
     | .stop (.err t' st r') =>
       if hasErrs then specRoutes errs (withError st r') t'
       else .stop (.err t' st r')
@@ -86,22 +87,18 @@ def eval (routes : List Route) (hasErrs : Bool) (errs : List Route) (req : Req) 
   match specRoutes routes { req with groups := [], ctxErr := none, replStatus := none } [] with
   | .cont _ t => ⟨t, none⟩                      -- nobody answered: empty default response
   | .stop (.done t s) => ⟨t, s⟩
+  | .stop (.reached _ t) => ⟨t, none⟩
   | .stop (.err t st r') =>
     if hasErrs && !errs.isEmpty then
       match specRoutes errs (withError st { r' with path := req.path }) t with
       | .cont r'' t2 => ⟨t2, some (writeStatus r''.ctxErr)⟩   -- error routes did not answer: error status
       | .stop (.done t2 s2) => ⟨t2, s2⟩
+      | .stop (.reached _ t2) => ⟨t2, none⟩
       | .stop (.err t2 _ _) => ⟨t2, some (writeStatus (some st))⟩
     else ⟨t, some (writeStatus (some st))⟩
 
 
-/-! ### the decidable exclusion used by `compile_correct_partial`
-
-The code passes "the rest of the chain" INTO `Subroute.ServeHTTP`, so a subroute that has error
-routes also catches errors raised by handlers and matchers that come AFTER it (and then runs the
-rest of the chain a second time).  The documented rules above do not do that.  `treeOk` is the
-static condition under which the two cannot differ: behind every subroute that has error routes
-nothing can fail (`ks` = "the rest of the chain cannot return an error"). -/
+/-! ### which matchers can report an error (used by `matcher_order_irrelevant_without_errors`) -/
 
 mutual
 def mCanErr : Matcher → Bool
@@ -118,48 +115,5 @@ def setCanErr : List Matcher → Bool
   | [] => false
   | m :: ms => mCanErr m || setCanErr ms
 end
-
-mutual
-def hsCanFail : List Handler → Bool
-  | [] => false
-  | h :: hs => hCanFail h || hsCanFail hs
-def hCanFail : Handler → Bool
-  | .pass _ => false
-  | .respond _ _ => false
-  | .rewrite _ _ => false
-  | .fail _ _ => true
-  | .raise _ => true
-  | .invoke _ => true
-  | .answer src => match src with | .empty => false | .lit _ => false | _ => true
-  | .sub rs hasErrs errs => if hasErrs then rsCanFail errs else rsCanFail rs
-def rsCanFail : List Route → Bool
-  | [] => false
-  | rt :: rs => rCanFail rt || rsCanFail rs
-def rCanFail : Route → Bool
-  | .mk _ sets hs _ => setsCanErr sets || hsCanFail hs
-end
-
-mutual
-def hsOk : List Handler → Bool → Bool
-  | [], _ => true
-  | h :: hs, ks => hOk h (ks && !hsCanFail hs) && hsOk hs ks
-def hOk : Handler → Bool → Bool
-  | .pass _, _ => true
-  | .respond _ _, _ => true
-  | .rewrite _ _, _ => true
-  | .fail _ _, _ => true
-  | .raise _, _ => true
-  | .answer _, _ => true
-  | .invoke _, _ => true
-  | .sub rs hasErrs errs, ks => if hasErrs then ks && rsOk rs ks && rsOk errs ks else rsOk rs ks
-def rsOk : List Route → Bool → Bool
-  | [], _ => true
-  | rt :: rs, ks => rOk rt (ks && !rsCanFail rs) && rsOk rs ks
-def rOk : Route → Bool → Bool
-  | .mk _ _ hs term, ks => hsOk hs (term || ks)
-end
-
-/-- no subroute with error routes is followed by anything that can fail -/
-def treeOk (routes errs : List Route) : Bool := rsOk routes true && rsOk errs true
 
 end CaddyModel.C05
